@@ -107,7 +107,9 @@ def b_detector_roundtrip(ctx):
         p = dict(y_center=rng.uniform(900, 1100), z_center=rng.uniform(900, 1100), y_size=rng.uniform(40, 60), z_size=rng.uniform(40, 60),
                  distance=rng.uniform(1e5, 3e5), tilt_x=rng.uniform(-.05, .05), tilt_y=rng.uniform(-.05, .05), tilt_z=rng.uniform(-.05, .05),
                  o11=o11, o12=o12, o21=o21, o22=o22, wedge=rng.choice([0., rng.uniform(-5, 5)]), chi=rng.choice([0., rng.uniform(-5, 5)]),
-                 t_x=rng.choice([0., rng.uniform(-300, 300)]), t_y=rng.uniform(-300, 300), t_z=rng.uniform(-100, 100))
+                 # every on/off pattern of the three translation components (the code tests each of them against zero)
+                 t_x=(rng.uniform(-300, 300) if (it // 8) & 1 else 0.), t_y=(rng.uniform(-300, 300) if (it // 8) & 2 else 0.),
+                 t_z=(rng.uniform(-100, 100) if (it // 8) & 4 else 0.))
         pk = rng.uniform(0, 2048, (2, 7))
         om = rng.uniform(-180, 180, 7)
         tth, eta = tr.compute_tth_eta(pk, omega=om, **p)
@@ -150,8 +152,48 @@ def b_uncompute(ctx):
                 rule="g on a %d^3 lattice in [-1.3,1.3]^3 x 5 wedge/chi pairs x both solutions; non-trivial = solution reproduced forward" % m)
 
 
+def u_xyz_from_tth_eta(ctx):
+    """compute_xyz_from_tth_eta against an implicit specification: the detector point (sc, fc) it returns lies on the ray that leaves the grain
+    origin in the direction (tth, eta).  compute_xyz_lab and compute_grain_origins (verified under C01) are replaced by symbolic results
+    (callee contracts: three points of the detector plane D; the grain origin G, which is 0 for a zero translation).  Steps: sc and fc are
+    the two triple products divided by norm; then  xyz x (norm.(dO - G) + Ns.ds + Nf.df) == 0  is a polynomial identity."""
+    tr = repo_module("ImageD11.transform")
+    D, G = ST.symarray("D", (3, 3)), ST.symarray("G", (3, 1))
+
+    def cross(a, b):
+        return [a[1] * b[2] - a[2] * b[1], a[2] * b[0] - a[0] * b[2], a[0] * b[1] - a[1] * b[0]]
+
+    def args():
+        return (ST.symarray("tth", (1,)), ST.symarray("eta", (1,)), ST.symarray("om", (1,))), \
+            dict(t_x=ST.sym("t_x"), t_y=ST.sym("t_y"), t_z=ST.sym("t_z"), wedge=ST.sym("wedge"), chi=ST.sym("chi"))
+
+    def run(tth, eta, om, **kw):
+        fc, sc = tr.compute_xyz_from_tth_eta(tth, eta, om, **kw)
+        npm = tr.np
+        rtth, reta = npm.radians(tth), npm.radians(eta)
+        xyz = [npm.cos(rtth)[0], (-npm.sin(rtth) * npm.sin(reta))[0], (npm.sin(rtth) * npm.cos(reta))[0]]
+        ds = [D[i, 0] - D[i, 2] for i in range(3)]
+        df = [D[i, 1] - D[i, 2] for i in range(3)]
+        w = [D[i, 2] - G[i, 0] for i in range(3)]
+        dn = cross(ds, df)
+        norm = dn[0] * xyz[0] + dn[1] * xyz[1] + dn[2] * xyz[2]
+        if bool(norm == 0):          # ray parallel to the detector plane: the function returns zeros, nothing is claimed
+            return [0, 0, 0, 0, 0]
+        dfw, wds = cross(df, w), cross(w, ds)
+        Ns = dfw[0] * xyz[0] + dfw[1] * xyz[1] + dfw[2] * xyz[2]
+        Nf = wds[0] * xyz[0] + wds[1] * xyz[1] + wds[2] * xyz[2]
+        c = cross(xyz, [norm * w[i] + Ns * ds[i] + Nf * df[i] for i in range(3)])
+        return [sc[0] - Ns / norm, fc[0] - Nf / norm, c[0], c[1], c[2]]
+    zero_t = z3.And(z3.Real("t_x") == 0, z3.Real("t_y") == 0, z3.Real("t_z") == 0)
+    req = [z3.Implies(zero_t, z3.And(*[ST._t(G[i, 0]) == 0 for i in range(3)]))]
+    extra = {"compute_xyz_lab": lambda pks, **k: D, "compute_grain_origins": lambda omega, **k: G}
+    return trace_obligations("py:transform.compute_xyz_from_tth_eta", run, [tr], args, lambda a, kw, pc: [0, 0, 0, 0, 0], prop="C02",
+                             extra=extra, requires=req, chain_order=[0, 1, 2, 3, 4])
+
+
 def units():
     return [GenUnit("py:transform.bragg_law", u_bragg_python, "trace"),
+            GenUnit("py:transform.compute_xyz_from_tth_eta", u_xyz_from_tth_eta, "trace"),
             LemmaUnit("bragg_reference_geometry", l_bragg_spec),
             LemmaUnit("omega_rotates_g_about_axis", l_rotation_about_axis),
             BoundedUnit("detector-roundtrip", b_detector_roundtrip, "300 (thorough 3000) random geometries"),
